@@ -671,6 +671,8 @@ pub fn run(ctx: &mut Ctx) {
     two_point_coverage_long(ctx);
     uniform_independence(ctx);
     uniform_independence_long(ctx);
+    // coverage-guided search over the same strategies and oracles (thorough tier; see ptfuzz.rs)
+    crate::ptfuzz::thorough(ctx, &[("c10", 16, 1_500_000), ("c10L", 16, 200_000)]);
 }
 
 pub fn replay(ctx: &mut Ctx, sub: &str, case: &Value) {
